@@ -1,6 +1,7 @@
 """A3: guarded-field access rule, and helpers shared by the property modules."""
 import json
 import os
+import re
 
 from .engine import (CALLS, CTORS, HELD, MAYBE, UNOWNED, LockVal, LockAnalysis, WRAPPERS,
                      describe_cond_arm, handle_class, is_lock_carrier, is_mutex_type,
@@ -228,6 +229,16 @@ def check_guarded_fields(ctx, rid, cls, only_fields=None, doc=None, only_functio
                 n += 1
                 continue
             kind = ent["kind"]
+            if kind == "atomic" and not re.match(r"^(const )?std::atomic(<|_)", st["m"].get("ftype", "")):
+                # the table's claim "atomic" is about the declaration: a field that is (no longer) a std::atomic has no
+                # unlocked access at all - every read and write needs its paired mutex
+                if "guard" not in ent:
+                    ctx.ob(rid, False, site, "%s is declared std::atomic (tables/guards.json: accessed without a lock)" % name,
+                           "its type is %s and no mutex is associated with it" % st["m"].get("ftype"), fn=top.label, inst=inst)
+                    n += 1
+                    continue
+                ent = dict(ent, kind="guarded", r="S", w=ent.get("w", "X"))
+                kind = "guarded"
             if kind in ("mutex", "condvar", "selfsync", "protocol"):
                 continue
             pos = f.pos_of(st)
